@@ -3,6 +3,7 @@ import signal
 
 from simkit.core import Result, h64
 from simkit.kernel import Sim, current_task
+from simkit import preempt
 from worlds import master, worker as W
 
 ID = "C11"
@@ -50,13 +51,16 @@ def make_worker_case(index, rng, tier):
         n = rng.randrange(1, 3)
         sat = {"n": n, "keepalive": timeout + rng.choice([1, 2, 3])}
     return {"family": "worker", "kind": kind, "timeout": timeout, "clients": clients, "threads": rng.randrange(1, 3), "saturate": sat,
-            "keepalive": rng.choice([0, 2]), "buggify": {"short_recv": rng.randrange(4) == 0, "spurious_select": rng.randrange(4) == 0}}
+            "keepalive": rng.choice([0, 2]), "buggify": {"pyticks": rng.randrange(3) == 0, "short_recv": rng.randrange(4) == 0, "spurious_select": rng.randrange(4) == 0}}
 
 
 def run_worker(case, choices):
     res = Result()
     sim = Sim(choices, max_steps=200000, max_time=300.0)
     sim.buggify = dict(case["buggify"])
+    if case["buggify"].get("pyticks"):
+        preempt.enable()
+        sim.py_ticks = True          # eval-breaker points inside gunicorn's Python code are delivery / pre-emption points too
     T = case["timeout"]
     kind = case["kind"]
     sat = case.get("saturate")
@@ -150,11 +154,15 @@ def make_case(index, rng, tier):
             events.append({"t": round(rng.uniform(0.5, 5.0), 2), "do": "stop", "which": i})
     if rng.randrange(4) == 0:
         events.append({"t": round(rng.uniform(0.5, 8.0), 2), "do": "clockstep", "by": rng.choice([3600.0, -3600.0, 86400.0])})
+    for _ in range(rng.choice([0, 0, 1, 2])):
+        # a worker dies while the master may be in the middle of its timeout scan
+        events.append({"t": round(rng.uniform(0.5, 9.0), 2), "do": "killw", "which": rng.randrange(4),
+                       "tick": rng.randrange(1, 60) if rng.randrange(2) else None})
     if rng.randrange(4) == 0:
         # the master is woken more often than once per loop period (USR1 / WINCH are harmless to it)
         events.append({"t": 0.5, "do": "storm", "every": rng.choice([0.2, 0.3, 0.45, 0.7]), "sig": rng.choice(["USR1", "WINCH"])})
     return {"timeout": timeout, "workers": n, "scripts": scripts, "kinds": kinds, "events": events,
-            "buggify": {"fork_child_first": rng.randrange(2) == 0, "spurious_select": rng.randrange(3) == 0,
+            "buggify": {"pyticks": rng.randrange(3) == 0, "fork_child_first": rng.randrange(2) == 0, "spurious_select": rng.randrange(3) == 0,
                         "random_spawn_delay": rng.randrange(2) == 0}}
 
 
@@ -164,6 +172,9 @@ def run(case, choices):
     res = Result()
     sim = Sim(choices, max_steps=80000, max_time=300.0)
     sim.buggify = dict(case["buggify"])
+    if case["buggify"].get("pyticks"):
+        preempt.enable()
+        sim.py_ticks = True          # eval-breaker points inside gunicorn's Python code are delivery / pre-emption points too
     timeout = case["timeout"]
     cfg = {"workers": case["workers"], "timeout": timeout, "graceful_timeout": 2, "bind": ["127.0.0.1:8000"], "proc_name": "m0"}
     scripts = {int(a): dict(s) for a, s in case["scripts"].items()}
@@ -224,6 +235,19 @@ def run(case, choices):
                 pid = pids[e["which"] % len(pids)]
                 sim.fault("worker_sigstop")
                 master.send_signal(sim, pid, signal.SIGSTOP)
+        elif e["do"] == "killw":
+            def kill_one():
+                lw = sorted(master.live_children(sim, m.pid), key=lambda p_: p_.pid)
+                if lw and m.state == "running":
+                    sim.fault("worker_killed_by_environment")
+                    victim = lw[e["which"] % len(lw)]
+                    created.pop(victim.pid, None)          # its silence from now on is death, not a hang
+                    master.send_signal(sim, victim.pid, signal.SIGKILL)
+            if e.get("tick"):
+                t_ = m.tasks[0]
+                t_.tick_hooks[t_.ticks + e["tick"]] = kill_one
+            else:
+                kill_one()
         elif e["do"] == "storm":
             if m.state == "running" and sim.now < horizon - 1.0:
                 if int(signal.SIGCHLD) in m.handlers:
